@@ -5,8 +5,8 @@ from vf import oracle
 from vf.oracle import inf
 from vf.runner import Plan
 
-RULE = ("cases = needleman_wunsch + best_alignment calls on pairs of sequences over a 3-letter alphabet (lengths "
-        "0..8, strings / lists / tuples) x scoring {default, dictionary substitution with custom gap cost, max and min "
+RULE = ("cases = needleman_wunsch + best_alignment calls on pairs of sequences over a 3-symbol alphabet (single characters, "
+        "multi-character words, tuples or integers; lengths 0..8, strings / lists / tuples) x scoring {default, dictionary substitution with custom gap cost, max and min "
         "orientation} x all six traceback orders. Oracle: independent DP over (i, j) prefixes, itself checked in this "
         "run against explicit enumeration of all gapped global alignments for lengths <= 4. Postconditions: value == "
         "maximum total score; the reconstructed alignment has two equal-length rows, removing gaps gives back the "
@@ -81,18 +81,22 @@ def run(ctx):
             raise RuntimeError("reference NW DP disagrees with enumeration")
     N = ctx.scale(12000, 100000)
     orders = list(itertools.permutations([0, 1, 2]))
+    ALPHAS = [("chars", "ABC"), ("chars", "ABC"), ("words", ["ALA", "GLY", "SER"]), ("tuples", [(0, 1), (1, 0), (2, 2)]),
+              ("ints", [0, 1, 2])]
     for _ in range(N):
         l1, l2 = rng.randint(0, 8), rng.randint(0, 8)
-        s1 = [rng.choice(ALPHA) for _ in range(l1)]
-        s2 = [rng.choice(ALPHA) for _ in range(l2)]
+        akind, alpha = rng.choice(ALPHAS)       # symbols need not be single characters
+        ctx.count("alphabet:" + akind)
+        s1 = [rng.choice(alpha) for _ in range(l1)]
+        s2 = [rng.choice(alpha) for _ in range(l2)]
         if rng.random() < 0.3 and l1:
             s2 = list(s1)
             for _k in range(rng.randint(0, 2)):
                 if s2 and rng.random() < 0.5:
                     del s2[rng.randrange(len(s2))]
                 else:
-                    s2.insert(rng.randint(0, len(s2)), rng.choice(ALPHA))
-        form = rng.choice(["str", "list", "tuple"])
+                    s2.insert(rng.randint(0, len(s2)), rng.choice(alpha))
+        form = rng.choice(["str", "list", "tuple"]) if akind == "chars" else rng.choice(["list", "tuple"])
         a = "".join(s1) if form == "str" else (list(s1) if form == "list" else tuple(s1))
         b = "".join(s2) if form == "str" else (list(s2) if form == "list" else tuple(s2))
         mode = rng.choice(["default", "dict_max", "dict_min", "gap_only"])
@@ -100,7 +104,7 @@ def run(ctx):
         tiny = False
         if mode != "default":
             if mode != "gap_only":
-                matrix = {(rng.choice(ALPHA), rng.choice(ALPHA)): rng.choice([-2, -1, 0.5, 1, 2, 3])
+                matrix = {(rng.choice(alpha), rng.choice(alpha)): rng.choice([-2, -1, 0.5, 1, 2, 3])
                           for _ in range(rng.randint(1, 4))}
             gap = rng.choice([0.5, 1, 1, 2, 3, 0, 0.0])
             if mode != "gap_only" and rng.random() < 0.25:
@@ -108,15 +112,19 @@ def run(ctx):
                 sc = rng.choice([1e-9, 1.0])
                 if sc != 1.0:
                     # complete table, so that no pair falls back to the default +-1 scores
-                    matrix = {(x_, y_): rng.choice([-2, -1, 0.5, 1, 2, 3]) for x_ in ALPHA for y_ in ALPHA}
+                    matrix = {(x_, y_): rng.choice([-2, -1, 0.5, 1, 2, 3]) for x_ in alpha for y_ in alpha}
                 matrix = {k_: (v_ * sc + rng.choice([0, 4e-6 * sc, -3e-6 * sc])) for k_, v_ in matrix.items()}
-                matrix[(rng.choice(ALPHA), rng.choice(ALPHA))] = -1.000004 * sc
+                matrix[(rng.choice(alpha), rng.choice(alpha))] = -1.000004 * sc
                 gap = rng.choice([0.5 * sc, 1.0 * sc])
                 tiny = sc != 1.0
+            if l1 == l2 and l1 >= 1 and rng.random() < 0.08:
+                # gaps forbidden altogether: the optimum of equally long sequences is the gap-free alignment
+                gap = inf
+                ctx.count("infinite_gap_cost_cases")
             opt = "min" if mode == "dict_min" else "max"
             modifier = 1.0 if opt == "min" else -1.0
             sub = alignment.make_substitution_fn(dict(matrix), gap=gap, opt=opt)
-        wit = dict(s1=s1, s2=s2, form=form, mode=mode, matrix={"%s%s" % k: v for k, v in matrix.items()}, gap=gap)
+        wit = dict(s1=s1, s2=s2, form=form, mode=mode, matrix={"%s|%s" % k: v for k, v in matrix.items()}, gap=gap, alphabet=akind)
         ctx.current("nw %r" % (wit,))
         try:
             value, scores, paths = alignment.needleman_wunsch(a, b, substitution=sub)
@@ -127,7 +135,8 @@ def run(ctx):
         ctx.count("values_checked")
         ctx.case(("nw", tuple(s1), tuple(s2), mode, tuple(sorted(matrix.items())), gap), l1 > 0 and l2 > 0 and
                  want < sum(1.0 for _ in range(min(l1, l2))))
-        scale_ = max([abs(v_) for v_ in matrix.values()] + [abs(gap), 1e-300]) if tiny else max([abs(v_) for v_ in matrix.values()] + [abs(gap), 1.0])
+        fg_ = [abs(gap)] if gap != inf else []
+        scale_ = max([abs(v_) for v_ in matrix.values()] + fg_ + [1e-300]) if tiny else max([abs(v_) for v_ in matrix.values()] + fg_ + [1.0])
         tol_ = 1e-9 * scale_ * (l1 + l2 + 1)
         if abs(float(value) - want) > tol_:
             ctx.violation("value-not-optimal", got=float(value), want=want, **wit)
